@@ -8,7 +8,7 @@ import logging
 import re
 import warnings
 from collections import Counter
-from collections.abc import Iterable
+from collections.abc import Container, Iterable
 from copy import deepcopy
 from types import MappingProxyType
 from typing import IO, Any, TypeVar
@@ -1317,6 +1317,11 @@ class Model:
         of a distribution node is a :Class:`.VarValue` node, the value of its input is
         updated.
         """
+        if not isinstance(skip, Container):
+            # a one-shot iterable (e.g. a generator) would be consumed by the first
+            # membership test below
+            skip = tuple(skip)
+
         dists = [
             node
             for node in self._simulation_nodes
